@@ -828,4 +828,211 @@ theorem paths_eq_walkCount {n : ℕ} {nbr : ℕ → List ℕ} (src : ℕ) (hnd :
     · rw [List.count_eq_one_of_mem (hnd u) h]; simp [h]
     · rw [List.count_eq_zero_of_not_mem h]; simp [h]
 
+/-! ### predecessor lists and the stack order (needed by the accumulation phase) -/
+
+/-- `preds[w]` -/
+def Pr (st : BState) (w : ℕ) : List ℕ := st.preds.getD w []
+
+theorem step_preds (i : ℕ) (st : BState) (j : ℕ) (hjD : j < st.dists.length) (hjP : j < st.preds.length) :
+    (brandesStep i st j).preds.length = st.preds.length ∧
+    ((D st j < 0 ∨ D st j = D st i + 1) → ∀ w, Pr (brandesStep i st j) w = if j = w then Pr st w ++ [i] else Pr st w) ∧
+    (¬ D st j < 0 → D st j ≠ D st i + 1 → brandesStep i st j = st) := by
+  refine ⟨?_, ?_, fun h1 h2 => step_other i st j h1 h2⟩
+  · by_cases hnew : D st j < 0
+    · rw [step_eq_new i st j hjD hnew]; simp
+    · by_cases hc : D st j = D st i + 1
+      · have hc' : (st.dists.getD j (-1) == st.dists.getD i (-1) + 1) = true := by rw [beq_iff_eq]; exact hc
+        rw [step_eq_child i st j hnew hc']; simp
+      · rw [step_other i st j hnew hc]
+  · intro h w
+    by_cases hnew : D st j < 0
+    · rw [step_eq_new i st j hjD hnew]
+      exact getD_modify _ _ _ _ _ hjP
+    · have hc : D st j = D st i + 1 := by
+        rcases h with h | h
+        · exact absurd h hnew
+        · exact h
+      have hc' : (st.dists.getD j (-1) == st.dists.getD i (-1) + 1) = true := by rw [beq_iff_eq]; exact hc
+      rw [step_eq_child i st j hnew hc']
+      exact getD_modify _ _ _ _ _ hjP
+
+/-- invariant on the predecessor lists and on the order of the stack -/
+structure PInv (n : ℕ) (eff : ℕ → List ℕ) (st : BState) : Prop where
+  lenP : st.preds.length = n
+  preds_ok : ∀ w, w < n → ∀ u, (Pr st w).count u
+      = if u ∈ st.seen ∧ D st u + 1 = D st w then (eff u).count w else 0
+  ssorted : st.seen.Pairwise (fun a b => D st b ≤ D st a)
+
+theorem PInv.step {n : ℕ} {nbr : ℕ → List ℕ} {src : ℕ} {i : ℕ} {pre : List ℕ} {L : ℕ} {st : BState}
+    (hI : Inv n nbr src (Function.update nbr i pre) L st) (hP : PInv n (Function.update nbr i pre) st)
+    (hi : i ∈ st.seen) (hiL : D st i = L) {j : ℕ} (hj : j < n) :
+    PInv n (Function.update nbr i (pre ++ [j])) (brandesStep i st j) := by
+  have hjD : j < st.dists.length := by rw [hI.lenD]; exact hj
+  have hjS : j < st.sigma.length := by rw [hI.lenS]; exact hj
+  have hjP : j < st.preds.length := by rw [hP.lenP]; exact hj
+  have heff : ∀ u, Function.update nbr i (pre ++ [j]) u = if u = i then pre ++ [j] else nbr u :=
+    fun u => update_apply' nbr i _ u
+  have heff0 : ∀ u, Function.update nbr i pre u = if u = i then pre else nbr u := fun u => update_apply' nbr i _ u
+  obtain ⟨hlen, hpr, hoth⟩ := step_preds i st j hjD hjP
+  by_cases hnew : D st j < 0
+  · obtain ⟨hD, _, hs, _, _, _⟩ := step_new i st j hjD hjS hnew
+    have hjseen : j ∉ st.seen := fun h => by
+      have := (hI.disc j hj).mpr (Or.inl h); omega
+    have hDne : ∀ v, v ≠ j → D (brandesStep i st j) v = D st v := fun v hv => by
+      rw [hD v, if_neg (Ne.symm hv)]
+    have hDj : D (brandesStep i st j) j = L + 1 := by rw [hD j, if_pos rfl, hiL]
+    have hDseen : ∀ u ∈ st.seen, D (brandesStep i st j) u = D st u := fun u hu =>
+      hDne u (fun h => hjseen (h ▸ hu))
+    have hjpre : j ∉ pre := fun h => by
+      have := hI.closed i hi j (by rw [heff0, if_pos rfl]; exact h); omega
+    refine ⟨by rw [hlen]; exact hP.lenP, ?_, ?_⟩
+    · intro w hw u
+      rw [hpr (Or.inl hnew) w, hs]
+      by_cases hjw : j = w
+      · subst hjw
+        rw [if_pos rfl, List.count_append, hP.preds_ok j hj u]
+        have hold : ¬ (u ∈ st.seen ∧ D st u + 1 = D st j) := fun h => by
+          have := (hI.disc u (hI.slt u h.1)).mpr (Or.inl h.1); omega
+        rw [if_neg hold, zero_add, List.count_singleton]
+        by_cases hui : u = i
+        · subst hui
+          have hc : u ∈ st.seen ∧ D (brandesStep u st j) u + 1 = D (brandesStep u st j) j := by
+            rw [hDseen u hi, hDj, hiL]; exact ⟨hi, rfl⟩
+          rw [if_pos hc, heff, if_pos rfl, count_snoc, if_pos rfl, List.count_eq_zero_of_not_mem hjpre]
+          simp
+        · have hne : (i == u) = false := by simpa using (Ne.symm hui)
+          rw [hne]
+          simp only [Bool.false_eq_true, if_false]
+          by_cases hc : u ∈ st.seen ∧ D (brandesStep i st j) u + 1 = D (brandesStep i st j) j
+          · rw [if_pos hc, heff, if_neg hui]
+            have : j ∉ nbr u := fun h => by
+              have := hI.closed u hc.1 j (by rw [heff0, if_neg hui]; exact h); omega
+            rw [List.count_eq_zero_of_not_mem this]
+          · rw [if_neg hc]
+      · rw [if_neg hjw, hP.preds_ok w hw u, hDne w (Ne.symm hjw)]
+        by_cases hu : u ∈ st.seen
+        · rw [hDseen u hu, heff, heff0]
+          by_cases hui : u = i
+          · simp only [hui, if_true, count_snoc, if_neg hjw, add_zero]
+          · simp only [hui, if_false]
+        · simp [hu]
+    · rw [hs]
+      exact hP.ssorted.imp_of_mem fun {a b} ha hb hab => by rw [hDseen a ha, hDseen b hb]; exact hab
+  · by_cases hchild : D st j = D st i + 1
+    · obtain ⟨hD, _, hs, _, _, _⟩ := step_child i st j hjS hnew hchild
+      refine ⟨by rw [hlen]; exact hP.lenP, ?_, ?_⟩
+      · intro w hw u
+        rw [hpr (Or.inr hchild) w, hs, hD, hD]
+        by_cases hjw : j = w
+        · subst hjw
+          rw [if_pos rfl, List.count_append, hP.preds_ok j hj u, List.count_singleton, heff, heff0]
+          by_cases hui : u = i
+          · subst hui
+            have hc : u ∈ st.seen ∧ D st u + 1 = D st j := ⟨hi, hchild.symm⟩
+            simp only [hc, and_self, if_true, count_snoc, beq_self_eq_true]
+          · have hne : (i == u) = false := by simpa using (Ne.symm hui)
+            simp only [hui, if_false, hne]
+            rfl
+        · rw [if_neg hjw, hP.preds_ok w hw u, heff, heff0]
+          by_cases hui : u = i
+          · simp only [hui, if_true, count_snoc, if_neg hjw, add_zero]
+          · simp only [hui, if_false]
+      · rw [hs]
+        exact hP.ssorted.imp fun {a b} hab => by rw [hD, hD]; exact hab
+    · rw [hoth hnew hchild]
+      refine ⟨hP.lenP, ?_, hP.ssorted⟩
+      intro w hw u
+      rw [hP.preds_ok w hw u, heff, heff0]
+      by_cases hui : u = i
+      · subst hui
+        simp only [if_true, count_snoc]
+        by_cases hjw : j = w
+        · subst hjw
+          have : ¬ (u ∈ st.seen ∧ D st u + 1 = D st j) := fun h => hchild h.2.symm
+          rw [if_neg this, if_neg this]
+        · rw [if_neg hjw, add_zero]
+      · simp only [hui, if_false]
+
+theorem PInv.scan {n : ℕ} {nbr : ℕ → List ℕ} {src : ℕ} (hnbr : ∀ u, ∀ v ∈ nbr u, v < n) {i : ℕ} {L : ℕ}
+    (rest pre : List ℕ) (hsplit : pre ++ rest = nbr i) {st : BState}
+    (hI : Inv n nbr src (Function.update nbr i pre) L st) (hP : PInv n (Function.update nbr i pre) st)
+    (hi : i ∈ st.seen) (hiL : D st i = L) :
+    PInv n nbr (rest.foldl (brandesStep i) st) := by
+  induction rest generalizing pre st with
+  | nil =>
+    rw [List.append_nil] at hsplit
+    rw [hsplit, Function.update_eq_self] at hP
+    exact hP
+  | cons j t ih =>
+    rw [List.foldl_cons]
+    have hjn : j ∈ nbr i := by rw [← hsplit]; simp
+    have hj : j < n := hnbr i j hjn
+    have hk := step_keeps i st j (by rw [hI.lenD]; exact hj) (by rw [hI.lenS]; exact hj)
+      (by rw [hiL]; exact Int.natCast_nonneg L)
+    exact ih (pre ++ [j]) (by rw [List.append_assoc]; exact hsplit) (hI.step hi hiL hj hjn)
+      (hP.step hI hi hiL hj) (by rw [hk.1]; exact hi) (by rw [hk.2]; exact hiL)
+
+theorem PInv.pop {n : ℕ} {nbr : ℕ → List ℕ} {src : ℕ} {L : ℕ} {st : BState} (hI : Inv n nbr src nbr L st)
+    (hP : PInv n nbr st) {i : ℕ} {rest : List ℕ} (hq : st.queue = i :: rest) :
+    PInv n (Function.update nbr i []) { st with queue := rest, seen := i :: st.seen } := by
+  have hiq : i ∈ st.queue := by rw [hq]; simp
+  have hiseen : i ∉ st.seen := hI.qs_disj i hiq
+  have hlev := hI.qlev i hiq
+  refine ⟨hP.lenP, ?_, ?_⟩
+  · intro w hw u
+    show (Pr st w).count u = if u ∈ i :: st.seen ∧ D st u + 1 = D st w then (Function.update nbr i [] u).count w else 0
+    rw [hP.preds_ok w hw u, update_apply']
+    by_cases hui : u = i
+    · subst hui
+      have : ¬ (u ∈ st.seen ∧ D st u + 1 = D st w) := fun h => hiseen h.1
+      rw [if_neg this]; simp
+    · have : (u ∈ i :: st.seen ∧ D st u + 1 = D st w) ↔ (u ∈ st.seen ∧ D st u + 1 = D st w) := by
+        rw [List.mem_cons]
+        constructor
+        · rintro ⟨h | h, h2⟩
+          · exact absurd h hui
+          · exact ⟨h, h2⟩
+        · rintro ⟨h, h2⟩; exact ⟨Or.inr h, h2⟩
+      simp only [this, hui, if_false]
+  · show (i :: st.seen).Pairwise (fun a b => D st b ≤ D st a)
+    rw [List.pairwise_cons]
+    refine ⟨fun b hb => ?_, hP.ssorted⟩
+    have := hI.seen_le b hb
+    omega
+
+/-- both invariants through the `while` loop -/
+theorem bfs_inv' {n : ℕ} {nbr : ℕ → List ℕ} {src : ℕ} (hnbr : ∀ u, ∀ v ∈ nbr u, v < n) (fuel : ℕ) :
+    ∀ (L : ℕ) (st st' : BState), Inv n nbr src nbr L st → PInv n nbr st → brandesBfs nbr fuel st = some st' →
+      ∃ L', Inv n nbr src nbr L' st' ∧ PInv n nbr st' ∧ st'.queue = [] := by
+  induction fuel with
+  | zero =>
+    intro L st st' hI hP h
+    unfold brandesBfs at h
+    split at h
+    · rename_i he
+      cases h
+      exact ⟨L, hI, hP, List.isEmpty_iff.mp he⟩
+    · cases h
+  | succ f ih =>
+    intro L st st' hI hP h
+    unfold brandesBfs at h
+    split at h
+    · rename_i he
+      cases h
+      exact ⟨L, hI, hP, he⟩
+    · rename_i i rest he
+      obtain ⟨hI1, hcast⟩ := hI.pop he
+      have hP1 := hP.pop hI he
+      have hscan := Inv.scan hnbr (nbr i) [] (by simp) hI1 (by simp) hcast
+      have hpscan := PInv.scan hnbr (nbr i) [] (by simp) hI1 hP1 (by simp) hcast
+      exact ih _ _ _ hscan hpscan h
+
+theorem init_pinv (n : ℕ) (nbr : ℕ → List ℕ) (src : ℕ) : PInv n nbr (initState n src) := by
+  refine ⟨by simp [initState], ?_, by simp [initState]⟩
+  intro w hw u
+  have : Pr (initState n src) w = [] := by
+    unfold Pr initState; rw [tab_getD]; simp
+  rw [this]
+  simp [initState]
+
 end SkNet.Rank.Brandes
